@@ -14,6 +14,7 @@ Groups
   lockstep    random editing sequences applied to the original and to the loaded copy
 """
 import copy
+import enum
 import json
 import math
 import numbers as numbers_abc
@@ -22,6 +23,7 @@ from common import c_Q, c_bool, c_list, c_opt, c_str, c_Z
 
 from golem.core.dag.graph import ReconnectType
 from golem.core.dag.linked_graph import LinkedGraph
+from golem.core.log import default_log
 from golem.core.optimisers.fitness import MultiObjFitness, SingleObjFitness
 from golem.core.optimisers.graph import OptGraph, OptNode
 from golem.core.optimisers.opt_history_objects.individual import Individual
@@ -186,15 +188,65 @@ PARAMS = [None, {}, {'a': 1}, {'x': 0.5, 'y': {'z': [1, 2.5, 'q', None, True]}},
 NAMES = ['a', 'b', 'c', 'op', 'n', 'scaling', 'x y', '7']
 
 
+class C11Operation(str, enum.Enum):
+    """the usual `class Operation(str, Enum)` idiom: str(member) is 'C11Operation.scaling', the value is 'scale'"""
+    scaling = 'scale'
+    forest = 'rf'
+    ridge = 'ridge'
+
+
+class C11Shown(str):
+    """a str subclass whose str() differs from its value"""
+
+    def __str__(self):
+        return 'shown:' + self[:]
+
+
+def materialise_name(v):
+    """names that JSON cannot carry are kept in the specs as one-key dicts"""
+    if isinstance(v, dict) and len(v) == 1:
+        (k, x), = v.items()
+        if k == '$enum':
+            return C11Operation[x]
+        if k == '$strsub':
+            return C11Shown(x)
+        if k == '$tuple':
+            return tuple(x)
+    return v
+
+
+def materialise_content(content):
+    c = copy.deepcopy(content)
+    if 'name' in c:
+        c['name'] = materialise_name(c['name'])
+    return c
+
+
+def canon_content(content):
+    """content as it is shown to the model: a name that is not a plain str / int / bool / None (a float, a tuple,
+    a str-subclass object such as a str-Enum member) is shown as str(name), which is what LinkedGraphNode.name
+    and the encoder make of it; that saving leaves the object itself alone is checked by the typed snapshot"""
+    c = copy.deepcopy(content)
+    if 'name' in c:
+        v = c['name']
+        if not (v is None or type(v) in (str, int, bool)):
+            c['name'] = str(v)
+    return c
+
+
 def make_content(rng, style=None):
     """a content dict (insertion order matters for the JSON text)"""
     style = style if style is not None else rng.choice(
-        ['str', 'str', 'str', 'int', 'int', 'noname', 'noname', 'params-first', 'extra', 'bool'])
+        ['str', 'str', 'str', 'int', 'int', 'noname', 'noname', 'params-first', 'extra', 'bool',
+         'enum', 'enum', 'strsub', 'float', 'tuple'])
     params = rng.choice(PARAMS)
     if style == 'noname':
         return {} if params is None else {'params': copy.deepcopy(params)}
     name = {'str': rng.choice(NAMES), 'int': rng.choice([0, 3, -12, 1050]), 'params-first': rng.choice(NAMES),
-            'extra': rng.choice(NAMES), 'bool': True, 'none': None}[style]
+            'extra': rng.choice(NAMES), 'bool': True, 'none': None,
+            'enum': {'$enum': rng.choice(['scaling', 'forest', 'ridge'])},
+            'strsub': {'$strsub': rng.choice(NAMES)}, 'float': rng.choice([2.5, -0.125]),
+            'tuple': {'$tuple': ['t', 1]}}[style]
     if style == 'params-first':
         return {'params': copy.deepcopy(params if params is not None else {'a': 1}), 'name': name}
     c = {'name': name}
@@ -209,7 +261,10 @@ def name_style(content):
     if 'name' not in content:
         return 'noname'
     n = content['name']
-    return 'none' if n is None else 'bool' if isinstance(n, bool) else 'int' if isinstance(n, int) else 'str'
+    if isinstance(n, dict):
+        return next(iter(n))[1:]
+    return ('none' if n is None else 'bool' if isinstance(n, bool) else 'int' if isinstance(n, int)
+            else 'float' if isinstance(n, float) else 'str')
 
 
 def c11_postprocess(graph, nodes):
@@ -227,8 +282,32 @@ class C11Node(OptNode):
     """a user node class with its own coders (registered after the serializer's first use)"""
 
 
-class C11Graph(OptGraph):
-    """a user graph class with an extra field and its own coders"""
+class C11LogGraph(OptGraph):
+    """a user graph class that keeps a logger and an edit journal (the `self.log = default_log(self)` pattern):
+    the serializer skips every log* attribute on purpose, the constructor re-creates them when the graph is loaded"""
+
+    def __init__(self, *args, **kwargs):
+        super().__init__(*args, **kwargs)
+        self.log = default_log(self)
+        self.log_records = []
+
+    def delete_node(self, node, reconnect=ReconnectType.single):
+        self.log.debug('delete %s' % node.uid)
+        self.log_records.append(('delete', node.uid))
+        super().delete_node(node, reconnect)
+
+    def connect_nodes(self, node_parent, node_child):
+        self.log.debug('connect %s -> %s' % (node_parent.uid, node_child.uid))
+        self.log_records.append(('connect', node_parent.uid, node_child.uid))
+        super().connect_nodes(node_parent, node_child)
+
+    def disconnect_nodes(self, node_parent, node_child, clean_up_leftovers=False):
+        self.log_records.append(('disconnect', node_parent.uid, node_child.uid))
+        super().disconnect_nodes(node_parent, node_child, clean_up_leftovers)
+
+
+class C11Graph(C11LogGraph):
+    """a user graph class with an extra field, a journal and its own coders"""
 
 
 class C11Individual(Individual):
@@ -309,7 +388,7 @@ def build_graph(spec):
     if user:
         ensure_user_coders()
     for ns in spec['nodes']:
-        n = (C11Node if user else OptNode)(copy.deepcopy(ns['content']))
+        n = (C11Node if user else OptNode)(materialise_content(ns['content']))
         n.uid = ns['uid']
         objs.append(n)
     for ns, n in zip(spec['nodes'], objs):
@@ -318,6 +397,8 @@ def build_graph(spec):
     if user:
         graph = C11Graph(**kw)
         graph.label = 'user-graph'
+    elif spec.get('journal'):
+        graph = C11LogGraph(**kw)
     else:
         graph = OptGraph(**kw) if spec['kind'] == 'opt' else LinkedGraph(**kw)
     graph.nodes = [objs[i] for i in spec['order']]
@@ -337,7 +418,7 @@ def snap_nodes(objs, base=0):
                 none_used = True
             else:
                 ps.append(index[id(p)])
-        cells.append((n.uid, copy.deepcopy(n.content), tuple(ps), isinstance(n.nodes_from, UniqueList)))
+        cells.append((n.uid, canon_content(n.content), tuple(ps), isinstance(n.nodes_from, UniqueList)))
     if none_used:
         cells.append(None)
     return cells
@@ -474,7 +555,7 @@ def gen_graph_specs(ctx):
 
     # exhaustive: every digraph (self-loops included) on <= 3 nodes, one spec each; the node kinds
     # rotate so that each kind meets each position
-    styles = ['str', 'int', 'noname', 'params-first', 'extra', 'bool']
+    styles = ['str', 'int', 'noname', 'params-first', 'extra', 'bool', 'enum', 'strsub', 'float', 'tuple']
     k = 0
     for n in range(0, 4):
         pairs = [(c, p) for c in range(n) for p in range(n)]
@@ -777,7 +858,7 @@ def gen_ind_specs(ctx):
     for i in range(n_ind):
         n = rng.choice([1, 2, 3, 4])
         pl = [[p for p in range(c) if rng.random() < 0.5] for c in range(n)]
-        nodes = [{'uid': 'n%d' % j, 'content': make_content(rng, rng.choice(['str', 'str', 'int', 'noname', 'params-first'])),
+        nodes = [{'uid': 'n%d' % j, 'content': make_content(rng, rng.choice(['str', 'str', 'int', 'noname', 'params-first', 'enum', 'strsub'])),
                   'parents': pl[j]} for j in range(n)]
         order = list(range(n))
         rng.shuffle(order)
@@ -915,10 +996,16 @@ def observe_load(tree, kind):
     lr = _try(lambda: json.loads(text, cls=Serializer))
     if lr[0] != 'ok':
         return None, None
-    nodes = observe_loaded_graph(lr[1], cls)
+    nr = _try(lambda: observe_loaded_graph(lr[1], cls))
+    if nr[0] != 'ok':
+        return None, None          # a decoded object that cannot even be inspected counts as "decoding failed"
+    nodes = nr[1]
     if nodes is None:
         return 'unexpected', None
-    cells = snap_nodes(nodes, 0)
+    sn = _try(lambda: snap_nodes(nodes, 0))
+    if sn[0] != 'ok':
+        return None, None
+    cells = sn[1]
     r2 = _try(lambda: dumps(lr[1]))
     return (cells, list(range(len(nodes)))), (parse_tree(r2[1]) if r2[0] == 'ok' else None)
 
@@ -1023,7 +1110,7 @@ def make_new(graph, newspec):
     nodes = graph.nodes
     chain = None
     for lvl, ns in enumerate(newspec['chain']):
-        n = OptNode(copy.deepcopy(ns['content']))
+        n = OptNode(materialise_content(ns['content']))
         n.uid = ns['uid']
         ps = [nodes[i] for i in ns['parents'] if i < len(nodes)]
         if chain is not None:
@@ -1074,7 +1161,7 @@ def gen_op(rng, n, counter):
         chain = []
         for _ in range(rng.choice([1, 1, 1, 2])):
             counter[0] += 1
-            chain.append({'uid': 'x%d' % counter[0], 'content': make_content(rng, rng.choice(['str', 'int', 'noname'])),
+            chain.append({'uid': 'x%d' % counter[0], 'content': make_content(rng, rng.choice(['str', 'int', 'noname', 'enum'])),
                           'parents': [p for p in range(n) if rng.random() < 0.3]})
         return {'chain': chain}
     if n == 0:
@@ -1109,22 +1196,43 @@ def known_uids(spec, ops):
     return k
 
 
+def sentinel(tag):
+    """a view no graph has: makes the comparison of the original with the loaded copy fail"""
+    return ((tag, '', None, (), False),)
+
+
+def safe_view(graph, known, fresh):
+    r = _try(lambda: view(graph, known, fresh))
+    return r[1] if r[0] == 'ok' else sentinel('CANNOT-INSPECT-' + str(r[1]))
+
+
 def lock_run(spec, ops, via_individual):
-    """applies ops to the original and to its loaded copy; returns (vo, vl, [(op, o_view|None, l_view|None)])"""
+    """applies ops to the original and to its loaded copy; returns (vo, vl, [(op, o_view|None, l_view|None)], flag).
+    Whatever the LOADED copy raises while it is loaded, inspected or edited (and the original does not) shows
+    up as a differing view, i.e. as a violation with this input - never as a driver error."""
     graph, objs = build_graph(spec)
+    known = known_uids(spec, ops)
+    fo, fl = {}, {}
+    vo = view(graph, known, fo)
     ind_same = True
     if via_individual:
         icls = C11Individual if spec.get('user') else Individual
         ind = icls(graph, fitness=SingleObjFitness(1.0), metadata={'t': 0.5, 'tags': ['a', 1]}, native_generation=3)
-        lind = Individual.load(ind.save())
-        loaded = lind.graph
-        ind_same = (type(lind) is icls and lind.metadata == ind.metadata and lind.uid == ind.uid and
-                    lind.native_generation == 3 and _try(lambda: lind.save() == ind.save()) == ('ok', True))
+        text = ind.save()
+        lr = _try(lambda: Individual.load(text))
+        gr = _try(lambda: lr[1].graph) if lr[0] == 'ok' else lr
+        if gr[0] != 'ok':
+            return vo, sentinel('LOAD-RAISED-' + str(gr[1])), [], False
+        lind, loaded = lr[1], gr[1]
+        ind_same = _try(lambda: (type(lind) is icls and lind.metadata == ind.metadata and lind.uid == ind.uid and
+                                 lind.native_generation == 3 and lind.save() == text)) == ('ok', True)
     else:
-        loaded = json.loads(dumps(graph), cls=Serializer)
-    known = known_uids(spec, ops)
-    fo, fl = {}, {}
-    vo, vl = view(graph, known, fo), view(loaded, known, fl)
+        text = dumps(graph)
+        lr = _try(lambda: json.loads(text, cls=Serializer))
+        if lr[0] != 'ok':
+            return vo, sentinel('LOAD-RAISED-' + str(lr[1])), [], False
+        loaded = lr[1]
+    vl = safe_view(loaded, known, fl)
     # before any editing: the loaded copy saves to the same text and carries the same postprocess function
     meta_same = (ind_same and type(loaded) is type(graph) and
                  _try(lambda: [type(n) for n in loaded.nodes]) == ('ok', [type(n) for n in graph.nodes]) and
@@ -1138,16 +1246,21 @@ def lock_run(spec, ops, via_individual):
     for op in ops:
         ro = _try(lambda: apply_op(graph, op))
         rl = _try(lambda: apply_op(loaded, op))
-        a, b = view(graph, known, fo), view(loaded, known, fl)
+        a, b = view(graph, known, fo), safe_view(loaded, known, fl)
+        def journal(g, fresh):     # uids made by uuid4 during the run are named as in the views
+            rec = getattr(g, 'log_records', None)
+            return None if rec is None else [tuple(fresh.get(x, x) for x in r) for r in rec]
+        if _try(lambda: journal(graph, fo)) != _try(lambda: journal(loaded, fl)):
+            b = sentinel('JOURNAL-DIFFERS')
         if ro[0] == 'ok' and rl[0] == 'ok':
             steps.append((op, a, b))
         elif ro[0] == 'exc' and rl[0] == 'exc' and ro[1] == rl[1] and a == b:
             steps.append((op, None, None))
         else:
             # one raised and the other did not, or different exceptions, or different states after raising
-            steps.append((op, None if ro[0] == 'exc' else a, (('EXC-' + str(rl[1]), '', None, (), False),) if rl[0] == 'exc' else b))
+            steps.append((op, None if ro[0] == 'exc' else a, sentinel('EXC-' + str(rl[1])) if rl[0] == 'exc' else b))
             if ro[0] == 'exc' and rl[0] == 'exc':
-                steps[-1] = (op, a, (('MISMATCH-AFTER-RAISE', '', None, (), False),))
+                steps[-1] = (op, a, sentinel('MISMATCH-AFTER-RAISE'))
         if ro[0] == 'exc' or rl[0] == 'exc':
             break          # the state after an exception is compared above; the sequence ends there
     return vo, vl, steps, meta_same
@@ -1188,7 +1301,7 @@ def gen_lock_specs(ctx):
             ps = [p for p in cand if rng.random() < 0.45]
             rng.shuffle(ps)
             pl.append(ps)
-        nodes = [{'uid': 'n%d' % j, 'content': make_content(rng, rng.choice(['str', 'str', 'int', 'noname'])),
+        nodes = [{'uid': 'n%d' % j, 'content': make_content(rng, rng.choice(['str', 'str', 'int', 'noname', 'enum', 'strsub', 'tuple'])),
                   'parents': pl[j]} for j in range(n)]
         order = list(range(n))
         if dag and rng.random() < 0.7:
@@ -1201,6 +1314,10 @@ def gen_lock_specs(ctx):
             # half of the time: delete_node / disconnect_nodes / update_node call it
             spec['post'] = True
             spec['kind'] = rng.choice(['linked', 'opt'])
+        if i % 8 == 7:
+            # a user graph class with a constructor-made logger and journal that its editing methods use
+            spec['journal'] = True
+            spec['kind'] = 'opt'
         if i % 8 == 3:
             # user subclasses of OptNode / OptGraph / Individual with their own (reversible) coders, registered after
             # the serializer's first use: original vs loaded copy
@@ -1252,7 +1369,8 @@ def run_lockstep(ctx):
             ctx.count('lockstep', key=(view_key(vo), json.dumps(ops, sort_keys=True)), nontrivial=True, op=op[0],
                       raised=(a is None), modelled=(c_op(op, bool(spec.get('post'))) != 'OOther'),
                       duplicate_links=dup, user_postprocess=bool(spec.get('post')), graph_class=spec['kind'],
-                      user_coders=bool(spec.get('user')), via_individual=via_ind)
+                      user_coders=bool(spec.get('user')), via_individual=via_ind,
+                      journal_graph=bool(spec.get('journal') or spec.get('user')))
         if not steps:
             ctx.count('lockstep', key=(view_key(vo), 'no-ops'), nontrivial=False, op='none')
         if not r[0]:
@@ -1277,6 +1395,11 @@ def run(ctx):
                 'the original and the loaded copy, one evaluation per operation. distinct = distinct spec; non-trivial = '
                 'graph with an edge / individual with valid fitness or parent operator / every lock-step operation')
     ctx.trusted_extra = [
+        'a node name that is not a plain str / int / bool / None (float, tuple, str-subclass object such as a str-Enum '
+        'member) is shown to the model as str(name); the typed before/after snapshot of the harness checks that saving '
+        'leaves the name object itself unchanged',
+        'graphs with a user postprocess function and user graph / node / individual subclasses (own coders, '
+        'constructor-made logger and journal) are compared original-vs-loaded only, without the model',
         'json text <-> tree (CPython json.dumps / json.loads: key order = dict order, float printing) is compared '
         'textually by the harness (second text == first text) and not modelled',
         'inputs hold only JSON-native values (string keys, no tuples, finite dyadic non-integral floats, ints); '
